@@ -152,11 +152,13 @@ def d2_kmesh(chk, repo, q, count_txt, forward):
         half = v.spec("spfft.rfftfreq(C, self.cell[i])", env=dict(env, C=count))
         if forward:
             okf = len(mem) == 2 and any(v.eq(m_, full) for m_ in mem) and any(v.eq(m_, half) for m_ in mem)
-            cond_ok = False
-            for st in walk_stmts(br.orelse):
-                if isinstance(st, ast.If) and st.body and isinstance(st.body[0], ast.Assign) and \
-                        v.eq(v.term(st.body[0].value, at=st.body[0]), half):
-                    cond_ok = v.eq(v.ev.term(st.test, at=st), v.spec("rfft and i == self.region.ndim - 1", env=env))
+            # the half-spectrum frequencies arrive exactly under `rfft and last axis` (gated reaching definitions: however
+            # the two alternatives are written down)
+            from ..lib import gated_values, value_iff, full_term
+            gv = gated_values(v, fr[1], gen["p1"][0])
+            cond_ok = bool(gv) and value_iff(v, gv, lambda t_: v.eq(t_, half),
+                                             v.spec("rfft and i == self.region.ndim - 1", env=env),
+                                             assume=full_term(v, gen["p1"][0]))
             chk.ob(f"{q}::general::real-transform-last-axis", cond_ok, "C11.D2",
                    "rfftfreq must be used exactly for the last axis of the real transform", v.f, br)
         else:
